@@ -696,3 +696,28 @@ def spawn_model_line(acts, seeds):
         return x
     return "spawnmodel (seeds %s) (progs %s)" % (
         " ".join(str(s) for s in seeds), " ".join("(" + " ".join(a(x) for x in prog) + ")" for prog in acts))
+
+
+def gen_spawn_storm(rng):
+    """Many short-lived cores that spawn further cores while others finish (stresses the core list)."""
+    m = rng.randrange(3, 9)
+    l = rng.randrange(1, 4)
+    src = 'fn leaf(id: int) { println("leaf", id); }\n'
+    src += "fn mid(id: int) { " + " ".join(f"spawn leaf(id * 10 + {j});" for j in range(l)) + ' println("mid", id); }\n'
+    src += "fn main() { " + " ".join(f"spawn mid({i + 1});" for i in range(m)) + " }\n"
+    lines = [f"mid {i + 1}" for i in range(m)] + [f"leaf {(i + 1) * 10 + j}" for i in range(m) for j in range(l)]
+    acts = [[("s", 1 + i) for i in range(m)]]
+    # program table for the model: mids are programs 1..m, leaves follow
+    leaf_index = {}
+    nxt = 1 + m
+    for i in range(m):
+        for j in range(l):
+            leaf_index[(i, j)] = nxt
+            nxt += 1
+    for i in range(m):
+        acts.append([("s", leaf_index[(i, j)]) for j in range(l)] + [("p", f"mid {i + 1}")])
+    for i in range(m):
+        for j in range(l):
+            acts.append([("p", f"leaf {(i + 1) * 10 + j}")])
+    return {"src": src, "acts": acts, "lines": sorted(lines), "ncores": 1 + m + m * l, "fail": False, "failing": None,
+            "slots": {}, "incs": 0, "storm": True}
